@@ -31,6 +31,9 @@ Canonical encoding of a value (`enc_value`, written WITHOUT `json`; mirrored by 
     seen through the `parse_float` / `parse_constant` hooks of the real decoder, so also when the float is later dropped by a
     duplicate key) or an unpaired surrogate escape (seen through `object_pairs_hook`).  A text that `json.loads` rejects is
     `err JSONDecodeError` whatever came before the error.
+  NOTE: `harness/lanes/c05.py` does send floats: its `NESTED` metadata holds `2.5` (`'w': [1, 2.5, 'x', True]`) and `1e-3`
+  (`{'n': -3, 'f': 1e-3}`).  Dictionaries that carry them answer `unsupported` here, i.e. for those two metadata values the
+  float half of `json` (`float.__repr__` / `float()`) stays in the trusted base.
 
 Exclusions (`excluded(kind, x)` returns the reason, `pyjson_lines` returns `[]`) -- interpreter limits, not `json` behaviour:
   E1  an int with more than `sys.get_int_max_str_digits()` (4300) digits in the value / text: CPython's int<->str guard
@@ -487,9 +490,11 @@ def self_test(seed=1, verbose=True, trees=6000, mutants=30000):
 
     Sections: `codec` (the canonical encoding decodes back, Python side only), `hand` (the hand-made texts), `allchars`
     (every Unicode scalar value as an element of a str: dumps, loads of the produced text, loads of the raw text; every
-    surrogate code unit and every pair of boundary code units as `\\uXXXX` escapes), `escapes` (`\\X` for every ASCII X,
+    surrogate code unit and every pair of boundary code units as `\\uXXXX` escapes; also `cj` and `dumpsf` with
+    ensure_ascii on / off), `escapes` (`\\X` for every ASCII X,
     `\\uXXXX` over an alphabet of digit-like characters), `trees` (random trees incl. deep nesting, empty containers, awkward
-    keys / strings, long ints, key order permutations), `spaced` (whitespace variants of produced texts), `mutants` (one to
+    keys / strings, long ints, key order permutations; every tree also through `cj` and through `dumpsf` in a random format
+    -- whitespace around `,` and `:`, ensure_ascii on / off -- and `loads` of each produced text), `spaced` (whitespace variants of produced texts), `mutants` (one to
     three random edits of produced texts), `hugeint` (ints beyond the int/str guard with the guard switched off)."""
     t0 = time.time()
     rng = random.Random(seed)
